@@ -39,7 +39,7 @@ from . import common  # noqa: E402
 PROP = "C19"
 LEAN_MODULES = ["MiciVerif.Props.C19"]
 LEAN_EXTRA = ["MiciVerif.Model.MatricesCache", "MiciVerif.Model.MatricesEqTable"]
-GENERATED = True
+GENERATED = ["matrix_eq"]
 
 CORPUS = common.VERIF / "corpus" / "C19"
 
